@@ -91,7 +91,7 @@ def put_license_in_file(
     destination = Path(destination)
     destination.parent.mkdir(exist_ok=True)
 
-    if destination.exists():
+    if destination.exists() or destination.is_symlink():
         raise FileExistsError(
             errno.EEXIST, os.strerror(errno.EEXIST), str(destination)
         )
